@@ -18,7 +18,9 @@ MANIFEST = {
             "(C06_rows_every_text, composing C03's totality). That "
             "an extra line-break token at a statement boundary changes nothing else is the evaluator's business and is "
             "evaluated end-to-end: blank / comment lines inserted at every kind of statement boundary of generated programs, "
-            "string literals widened by line breaks, final newline added / removed.",
+            "string literals widened by line breaks (also one in each of 15 positions the evaluator reads or skips: index on an "
+            "untyped / unknown / union receiver, lambda and block bodies, hash key, call arguments, defaults, when clauses, ...), "
+            "final newline added / removed.",
     "note": "Partial: the evaluator's insensitivity to extra line-break tokens is exploration, not proof.",
     "technique": "Coq proof (row accounting of parser.Read, lifted to every token stream by induction) over the lexer/parser model; correspondence by vm_compute (C03); "
                  "metamorphic layout edits run through ti",
@@ -107,6 +109,66 @@ def part_generated(ctx, part):
         part.sample({"kind": kind, "at_row": at_row if at_row < 10 ** 8 else None, "delta": delta, "program_lines": base.count("\n")})
 
 
+# a string literal in every kind of position the evaluator reads or skips over (Read vs the Skip*/SkipToTargetToken paths of
+# parser/read.go): widening it must move the later rows like anywhere else
+STRING_CONTEXTS = [
+    ("index_on_untyped_param", ["def pick(h)", "  v = h[LIT]", "  dbtp v", "  1 + \"a\"", "end"]),
+    ("index_on_unknown", ["z = nothing_here", "w = z[LIT]", "dbtp w"]),
+    ("index_on_union", ["u = [1, \"a\"].sample", "w = u[LIT]", "dbtp w"]),
+    ("index_in_lambda", ["pr = ->(a) { a[LIT] }", "dbtp pr"]),
+    ("index_in_block", ["[1].each do |i|", "  k = i[LIT]", "end"]),
+    ("hash_key", ["h = {LIT => 1}", "dbtp h"]),
+    ("call_argument", ["puts LIT", "puts(LIT)"]),
+    ("unknown_call_argument", ["no_such_method(LIT, 2)", "q = 2"]),
+    ("array_element", ["a = [LIT, \"other\"]", "dbtp a"]),
+    ("default_argument", ["def g(s = LIT)", "  s", "end", "dbtp g"]),
+    ("when_clause", ["c = \"k\"", "r = case c", "when LIT", "  1", "else", "  2", "end", "dbtp r"]),
+    ("modifier_if", ["m = LIT if true", "dbtp m"]),
+    ("method_receiver", ["t = LIT.upcase", "dbtp t"]),
+    ("assignment", ["s = LIT", "dbtp s"]),
+    ("return_value", ["def rv", "  return LIT", "end", "dbtp rv"]),
+]
+
+
+def part_string_contexts(ctx, part):
+    def one(i):
+        r = C.rng_for(ctx.pid, ctx.seed, "strctx%d" % i)
+        name, body = STRING_CONTEXTS[i % len(STRING_CONTEXTS)]
+        pre = ["p%d = %d" % (j, j) for j in range(r.randint(0, 2))]
+        post = ["n = 1", "dbtp n", "n + \"b\"", "def later(x)", "  x", "end", "later(1)"]
+        lit = r.choice(["key", "s", "abc def"])
+        m = r.randint(1, 3)
+        pos = r.randint(0, len(lit))
+        wide = lit[:pos] + "\n" * m + lit[pos:]
+        li = next(k for k, l in enumerate(body) if "LIT" in l)
+        base_lines = pre + [l.replace("LIT", '"%s"' % lit) for l in body] + post
+        ed_body = list(body)
+        ed_body[li] = ed_body[li].replace("LIT", '"%s"' % wide, 1).replace("LIT", '"%s"' % lit)
+        ed_lines = pre + [l.replace("LIT", '"%s"' % lit) for l in ed_body] + post
+        return name, "\n".join(base_lines) + "\n", "\n".join(ed_lines) + "\n", len(pre) + li + 2, m
+
+    items = C.pmap(lambda i: (lambda t: (t, run_pair(t[1], t[2])))(one(i)), range(ctx.n(45, 300)), par=6)
+    for (name, base, edited, at_row, delta), outs in items:
+        for j, flag in enumerate(("plain", "-i")):
+            a, b = outs[0][j], outs[1][j]
+            part.evaluations += 1
+            part.count("string_in_" + name)
+            if a.timeout or b.timeout or a.crashed or b.crashed:
+                part.count("crash_or_timeout_seen")
+                continue
+            if any(int(x) >= at_row for x in re.findall(r':::(\d+):::', a.out)):
+                part.nontrivial.add(base + flag)
+            # the statement that holds the literal may be reported on its first row or on its last one
+            ok = remap(a.out, at_row, delta) == b.out or remap(a.out, at_row - 1, delta) == b.out
+            if ok:
+                part.agreed += 1
+            else:
+                part.failures.append(Failure("layout_changes_output", "widening a string literal (%s) changes more than the rows (%s)" % (name, flag),
+                                             {"kind": "string:" + name, "base": base, "edited": edited, "at_row": at_row, "delta": delta,
+                                              "expected": remap(a.out, at_row, delta), "got": b.out}))
+        part.sample({"kind": "string:" + name, "at_row": at_row, "delta": delta, "program_lines": base.count("\n")})
+
+
 def part_golden_eof(ctx, part):
     r = ctx.rng("eof")
     progs = r.sample(C.golden_programs(), ctx.n(60, 585))
@@ -136,7 +198,7 @@ def part_golden_eof(ctx, part):
     part.sample({"programs": len(progs)})
 
 
-PARTS = [part_generated, part_golden_eof]
+PARTS = [part_generated, part_string_contexts, part_golden_eof]
 
 
 def replay(path):
